@@ -102,7 +102,7 @@ class C12(Prop):
             'storage string, preemptible, pool_label); 15% of the cases repeat the request on the same InstanceCollectionConfigs object after '
             '1-2 pool reconfigurations written to inst_colls / pools (minisql) and read back by the real create() / refresh(); sent as a job through the real validate_and_clean_jobs in modern or deprecated spelling '
             '(pvc_size for resources.storage with the resources key absent / empty / present, command+image for process, gcsfuse, parent_ids)); memory sizes are boundary-directed (ceil(k*per_core/1000) -1/0/+1 for packable and '
-            'arbitrary k), storage at 0, 10Gi+-1 and the cloud limit +-1; non-trivial = a placement, or an unsatisfiable answer with at '
+            'arbitrary k), storage at 0, 10Gi+-1 and the cloud limit +-1; cpu strings k+0.001, k+1e-9, k+0.0010000001, k-0.001 cores around every packable size; non-trivial = a placement, or an unsatisfiable answer with at '
             'least one collection matching cloud/preemptibility/label; distinct by full case')
     trusted = ['harness/extract/machines.py (table translator)',
                'the resource block of _create_jobs is taken by AST (statements from `resources = spec.get(\'resources\')` to '
@@ -342,7 +342,7 @@ class C12(Prop):
         def opt(x, f):
             return '~' if x is None else f(x)
         t += ['R', opt(r.get('machine_type'), lambda s: '=' + s), opt(r.get('pool_label'), lambda s: '=' + s),
-              opt(r.get('preemptible'), lambda b: '1' if b else '0'), opt(r.get('cpu'), lambda x: str(x[0])),
+              opt(r.get('preemptible'), lambda b: '1' if b else '0'), opt(r.get('cpu'), lambda x: str(cpu_mcpu(x[1]))),
               opt(r.get('memory'), lambda m: 's=' + m[1] if m[0] == 'sym' else 'b%d' % m[1]), opt(r.get('storage'), lambda x: str(x[0])),
               opt(r.get('pvc_size'), lambda x: str(x[0]))]
         return ' '.join(t)
@@ -365,7 +365,9 @@ class C12(Prop):
             return dict(route='job-private', mt=mt, label=label, pre=pre, storage=storage)
         if mt is not None:
             return dict(route='empty-machine-type', label=label, pre=pre, storage=storage)
-        cores = cpu_mcpu(d['cpu']) if r.get('cpu') is None else r['cpu'][0]
+        # the requested cpu is read from the submitted STRING with the harness's own exact arithmetic (never the repo's parser):
+        # decimal cores (or `m` = millicores) to whole millicores, fractions of a millicore dropped (the unit of cpu requests, C25)
+        cores = cpu_mcpu(d['cpu'] if r.get('cpu') is None else r['cpu'][1])
         mem = r.get('memory')
         if mem is None:
             mem = ['sym', d['memory']] if d['memory'] in self.tables['memory_types'] else ['bytes', size_bytes(d['memory'])]
@@ -577,7 +579,26 @@ class C12(Prop):
                     if rng.random() < 0.08:
                         m = rng.choice([0, 1, 100, 300, 750, 1500, 3000, 5000, 96000, 250 * 2 ** 20])
                     req['cpu'] = [m, self._cpu_string(rng, m)]
-                cores = req['cpu'][0] if 'cpu' in req else cpu_mcpu(self.defaults['cpu'])
+                    if rng.random() < 0.15:
+                        # decimal core strings just above a packable size: k + 0.001 cores (one millicore more: not a power of two, must
+                        # be refused), k + 1e-9 (less than a millicore more), k + 0.0010000001, k - 0.001
+                        base = 250 * 2 ** rng.choice([0, 1, 2, 2, 3, 3, 4, 5, 5, 6])
+                        cores_s = str(Decimal(base) / Decimal(1000))
+                        if '.' not in cores_s:
+                            cores_s += '.'
+                        whole, frac = cores_s.split('.')
+                        frac3 = frac.ljust(3, '0')
+                        st = rng.choice([
+                            str(Decimal(base + 1) / Decimal(1000)),                     # 8.001
+                            str(Decimal(base + 1) / Decimal(1000)) + '0000001',         # 8.0010000001
+                            f'{whole}.{frac3}000001',                                   # 8.000000001
+                            f'{whole}.{frac3}9999999',                                  # 8.0009999999
+                            str(Decimal(base - 1) / Decimal(1000)),                     # 7.999
+                            str(Decimal(2 * base + 1) / Decimal(1000)),
+                        ])
+                        if _CPU.fullmatch(st) and 'E' not in st:
+                            req['cpu'] = [cpu_mcpu(st), st]
+                cores = cpu_mcpu(req['cpu'][1]) if 'cpu' in req else cpu_mcpu(self.defaults['cpu'])
                 if mode < 0.45:
                     if rng.random() < 0.85:
                         req['memory'] = ['sym', rng.choice(self.tables['memory_types'])]
@@ -684,6 +705,11 @@ class C12(Prop):
                 nontrivial = True
         elif q['route'] == 'job-private' and (o.startswith('ok') or o == 'reject unsatisfiable'):
             nontrivial = True
+        cp = c['req'].get('cpu')
+        if cp and '.' in cp[1] and not is_pow2_quarter(cpu_mcpu(cp[1])):
+            tags.append('cpu-decimal-string-not-a-packable-size')
+        if cp and (Fraction(_CPU.fullmatch(cp[1]).group(1)) * (1 if cp[1].endswith('m') else 1000)).denominator != 1:
+            tags.append('cpu-not-a-whole-number-of-millicores')
         for key in ('memory', 'storage', 'pvc_size'):
             v = c['req'].get(key)
             if v and v[0] != 'sym' and isinstance(v[-1], str) and size_exact(v[-1]).denominator != 1:
